@@ -2,7 +2,7 @@
    Property theorems only; each closed with [exact] and followed by
    Print Assumptions. *)
 From Coq Require Import List NArith.
-From HV Require Import Base.Res Base.Str Model.Parse Proofs.ParseProofs Proofs.ParseRefine Proofs.ParsePrint.
+From HV Require Import Base.Res Base.Str Model.Parse Proofs.ParseProofs Proofs.ParseRefine Proofs.ParsePrint Proofs.ParseDecl.
 Import ListNotations.
 
 (* Constructing an annotation object from any text never raises. *)
@@ -67,6 +67,20 @@ Theorem C02_parse_sh_is_init : forall s : str,
   hedstring_init s = Ok (spec_parse s) /\ parse_sh s = map (shape_of s) (spec_parse s).
 Proof. exact (fun s => conj (init_refines_spec s) (parse_sh_spec s)). Qed.
 Print Assumptions C02_parse_sh_is_init.
+
+(* DECLARATIVE reading of the tree, with no reference to any scanner -- for EVERY
+   text: the constructor succeeds with a tree in which every Tag a b (at any
+   depth) is a non-empty, delimiter-free slice s[a:b] without outer blanks that
+   is separated from the neighbouring delimiter (or text end) by blanks only
+   (hence the WHOLE trimmed run: "one tag per maximal run"), every Group a b
+   has s[a] = "(" and s[b-1] = ")" with its children strictly in between, and
+   siblings are in source order without overlap (node_ok, ordered: see
+   Proofs/ParseDecl.v).  Coverage of every non-blank, non-delimiter character
+   by a tag is the token-level statement C02_token_content above. *)
+Theorem C02_tree_declarative : forall s : str,
+  exists f, hedstring_init s = Ok f /\ Forall (node_ok s) f /\ ordered 0 (length s) (map span f).
+Proof. exact init_declarative. Qed.
+Print Assumptions C02_tree_declarative.
 
 (* Independent kernel-evaluated cross-check of all clauses at once, exhaustive
    over the delimiter alphabet up to length 6 (redundant with the unbounded
